@@ -574,8 +574,15 @@ class World:
             gid = op.get("g")
             if gid and self.model.genes.has_id(gid):
                 # a permanent background knock-out made before any analysis: part of the model the analyses must leave alone
-                self.model.genes.get_by_id(gid).knock_out()
-                self.ref._knock_gene(gid)
+                if op.get("flag_only"):
+                    # only the flag is cleared (gene.functional = False): the gene's reactions keep their bounds until somebody knocks
+                    # the gene out - which a deletion analysis asked for this gene does
+                    self.model.genes.get_by_id(gid).functional = False
+                    self.ref.genes[gid]["functional"] = False
+                    self.stats["probe:background_gene_flag_cleared_reactions_open"] += 1
+                else:
+                    self.model.genes.get_by_id(gid).knock_out()
+                    self.ref._knock_gene(gid)
                 self.exact_cache.clear()
                 self.refs.clear()
                 self.stats["probe:background_knockout"] += 1
@@ -1170,7 +1177,7 @@ def gen_ops(rng, W, prop, sw, run_cfg):
     if sw["platform"] == "Windows":
         yield {"op": "platform", "name": "Windows"}
     if sw.get("bg_knockout") and W.ref.genes:
-        yield {"op": "bg_knockout", "g": rng.choice(sorted(W.ref.genes))}
+        yield {"op": "bg_knockout", "g": rng.choice(sorted(W.ref.genes)), "flag_only": rng.random() < 0.4}
     pre_fix = prop == "C13" and sw.get("pre_fix")
     if pre_fix:
         # the user pinned the objective of the model *as it is now*; the model is not edited afterwards in such runs (a pin that a
